@@ -1,9 +1,9 @@
 """C19 — translator of generator FUNCTION BODIES: reads `modulo_counter`, `line`, `fadein`, `fadeout`, `attack`, `adsr`,
-`ones`, `zeros`, `impulse`, `sinusoid`, `TableLookup.__call__` from the source text of audiolazy/lazy_synth.py of the repo under test with `ast` (nothing is imported from the repo) and
+`ones`, `zeros`, `impulse`, `sinusoid`, `TableLookup.__call__`, `TableLookup.__getitem__` from the source text of audiolazy/lazy_synth.py of the repo under test with `ast` (nothing is imported from the repo) and
 writes them as Lean definitions over the number operations `NumOps` in the vocabulary of `lean/ALV/Model/C19Src.lean`
 (`forG`, `whileG`, `rangeG`, `takeRun`, `runPre`, `Iter.pre`, `post`, `modChain`, `nextOr`, `finiteG`) into
 `lean/ALV/Gen/C19Src.lean`.  `Props/C19.lean` proves `src_<f>_is_model`: each regenerated definition equals the code
-shaped model (`mcNow`, `lineG`, `adsrG`, `attackNow`, `constG`, `impulseG`, `sinusoidNow`, `tableCallNow`) the other theorems of the slice are about.
+shaped model (`mcNow`, `lineG`, `adsrG`, `attackNow`, `constG`, `impulseG`, `sinusoidNow`, `tableCallNow`, `getItemNow`) the other theorems of the slice are about.
 
 The Python subset understood (anything else in a chosen function raises TranslationError = broken obligation):
   * parameters with constant defaults; the decorator `tostream`; a docstring
@@ -25,7 +25,8 @@ The Python subset understood (anything else in a chosen function raises Translat
   * the method `TableLookup.__call__` (Lean `table_call`): `len(self)`, `self.table`, `self.cycles * 2 * pi` (the parameter
     `den`), `float(k)`, `number * argument`, `x = g(args)` of a translated generator, `tbl[int]`, `int(ceil(E))`,
     `return Stream(E for v in x)` with the raising primitives of E bound in Python's order of evaluation; `__len__` and the
-    property `table` must be the one-liners of ACCESSORS
+    property `table` must be the one-liners of ACCESSORS; the method `TableLookup.__getitem__` (Lean `table_getitem`, returns
+    one value: `Except String α`): also `int(floor(E))` (the parameter `floor`), `j % k` of ints, `return E`
 Normalised away: whitespace, comments, docstrings, line numbers.  Variable names are kept (they are the names in the Lean text)."""
 import ast
 import os
@@ -47,11 +48,14 @@ PARAMS = {
     "impulse": [("dur", "optnum"), ("one", "item"), ("zero", "item")],
     "sinusoid": [("freq", "arg"), ("phase", "arg")],
     "table_call": [("freq", "arg"), ("phase", "arg")],
+    "table_getitem": [("idx", "num")],
 }
 ORDER = ["modulo_counter", "line", "fadein", "fadeout", "attack", "adsr", "ones", "zeros", "impulse", "sinusoid",
-         "table_call"]
+         "table_call", "table_getitem"]
 # methods: Lean name -> (class, method); `self` is dropped, what is read of it comes in through EXTERNALS
-METHODS = {"table_call": ("TableLookup", "__call__")}
+METHODS = {"table_call": ("TableLookup", "__call__"), "table_getitem": ("TableLookup", "__getitem__")}
+# functions that return one value (or raise): `Except String α`, no number of reads
+VALUE_FUNCS = {"table_getitem"}
 # one-line methods / properties the translated methods go through, checked to be exactly these
 ACCESSORS = {("TableLookup", "__len__"): "return len(self._table)", ("TableLookup", "table"): "return self._table"}
 # functions whose items are of any type (the yielded values are parameters): `Run β`
@@ -60,19 +64,18 @@ ITEM_FUNCS = {"impulse"}
 # samples) and `twoPi`, the value of the expression `2 * pi` (part of the trusted vocabulary mapping)
 # and, for methods, what is read of `self`: `table` (self.table, a list; len(self) is its length) and `den`, the value of
 # the expression `self.cycles * 2 * pi`
-EXTERNALS = {"sinusoid": [("sin", "fn"), ("twoPi", "num")], "table_call": [("table", "table"), ("den", "num")]}
+EXTERNALS = {"sinusoid": [("sin", "fn"), ("twoPi", "num")], "table_call": [("table", "table"), ("den", "num")],
+             "table_getitem": [("floor", "floorfn"), ("table", "table")]}     # floor: `int(math.floor(x))`, not in NumOps
 BETA_FUNCS = ITEM_FUNCS | {"sinusoid"}
 SHORT = {"modulo_counter": "mc", "attack": "attack", "line": "line", "adsr": "adsr"}
 TAG = {"start": "P", "modulo": "M", "step": "S", "s": "S"}
 LEAN_TY = {"num": "α", "int": "Int", "bool": "Bool", "arg": "Arg α", "list": "List α", "optlist": "Option (List α)",
-           "optnum": "Option α", "item": "β", "fn": "α → β", "table": "List α"}
+           "optnum": "Option α", "item": "β", "fn": "α → β", "table": "List α", "floorfn": "α → Except String Int"}
 RESERVED = {"end", "begin", "from", "fun", "at", "do", "then", "else", "if", "let", "in", "open", "show", "have", "o",
             "nreads", "match", "with", "def", "where", "by", "Type", "instance", "structure", "import", "namespace"}
 FUEL = "nreads"
 NOT_TRANSLATED = {
     "white_noise / gauss_noise": "random values: only the duration is modelled (`noiseLen`)",
-    "TableLookup.__getitem__": "needs math.floor, which the record NumOps does not have (hand models `tableGetItem`, "
-                               "`getItemLen` over exact numbers, tied by sampling)",
     "TableLookup operators / harmonize / normalize / __init__ / table setter": "methods on an object with mutable "
         "attributes: outside the subset (hand models of Model/C19Obj)",
     "karplus_strong": "built from filter objects of lazy_filters (C04/C12 territory)",
@@ -99,6 +102,7 @@ class Fn:
         self.name = name
         self.sigs = sigs          # name -> [(param, kind, default-node|None)] of all wanted functions
         self.tmp = 0
+        self.fbind = "bindE" if name in VALUE_FUNCS else "runPre"   # a raising primitive at function level
         self.bodies = []          # emitted loop-body definitions (text)
         self.order = []           # every variable in order of first definition (for the free-variable lists)
 
@@ -154,6 +158,25 @@ class Fn:
                 bad(node, "ceil() of a non-number")
             v = self.fresh()
             return b + [(v, "o.ceil %s" % t)], v, "int"
+        if isinstance(node, ast.Call) and isinstance(node.func, ast.Name) and node.func.id == "int" and len(node.args) == 1 \
+                and not node.keywords and isinstance(node.args[0], ast.Call) and isinstance(node.args[0].func, ast.Name) \
+                and node.args[0].func.id == "floor" and len(node.args[0].args) == 1 and not node.args[0].keywords \
+                and env.get("floor") == "floorfn":
+            b, t, ty = self.expr(node.args[0].args[0], env)
+            if ty != "num":
+                bad(node, "floor() of a non-number")
+            v = self.fresh()
+            return b + [(v, "floor %s" % t)], v, "int"
+        if isinstance(node, ast.BinOp) and isinstance(node.op, ast.Mod) and not (
+                isinstance(node.left, ast.BinOp) and isinstance(node.left.op, ast.Mod)):
+            bl, tl, tyl = self.expr(node.left, env)
+            if tyl == "int":                         # int % int: floored, ZeroDivisionError
+                br, tr, tyr = self.expr(node.right, env)
+                if br or tyr != "int":
+                    bad(node, "int % something that is not a plain int")
+                v = self.fresh()
+                return bl + [(v, "intModG %s %s" % (tl, tr))], v, "int"
+            self.tmp -= len(bl)                      # not an int: read again below as a chain of number moduli
         if isinstance(node, ast.Call) and isinstance(node.func, ast.Name) and node.func.id == "float" and len(node.args) == 1 \
                 and not node.keywords and isinstance(node.args[0], ast.Name) and env.get(node.args[0].id) == "int":
             return [], "(o.ofInt %s)" % lname(node.args[0].id), "num"
@@ -378,7 +401,7 @@ class Fn:
                 if b0:
                     bad(st, "raising argument expression")
                 return (["%slet %s := %s" % (ind, lname(x), t0)] + self.block(rest, self.define(env, x, "arg"), path, ind))
-            lines, env2 = self.assign(st, env, "runPre", ind)
+            lines, env2 = self.assign(st, env, self.fbind, ind)
             return lines + self.block(rest, env2, path, ind)
         if isinstance(st, ast.If) and self.is_isinstance(st.test):
             x = st.test.args[0].id
@@ -453,6 +476,10 @@ class Fn:
             lines += ["%s  bindE (%s) fun %s =>" % (ind, term, v) for v, term in b]
             lines.append("%s  .ok %s) %s" % (ind, self.num(t, ty, ge.elt), lname(g.iter.id)))
             return lines
+        if isinstance(st, ast.Return) and st.value is not None and not rest and self.name in VALUE_FUNCS:
+            b, t, ty = self.expr(st.value, env)
+            return (["%sbindE (%s) fun %s =>" % (ind, term, v) for v, term in b]
+                    + ["%s.ok %s" % (ind, self.num(t, ty, st.value))])
         if isinstance(st, ast.Return) and st.value is not None and not rest:
             return [ind + self.call(st.value, env)]
         bad(st, "statement outside the subset")
@@ -809,7 +836,9 @@ def translate(text):
             out += [b, ""]
         params = " ".join("(%s : %s)" % (lname(p), LEAN_TY[kind])
                           for p, kind in EXTERNALS.get(f, []) + [(p, kind) for p, kind, _ in sigs[f]])
-        if f in BETA_FUNCS:
+        if f in VALUE_FUNCS:
+            out += ["def %s (o : NumOps α) %s : Except String α :=" % (f, params)] + lines + [""]
+        elif f in BETA_FUNCS:
             out += ["def %s {β : Type} (o : NumOps α) %s (%s : Nat) : Run β :=" % (f, params, FUEL)] + lines + [""]
         else:
             out += ["def %s (o : NumOps α) %s (%s : Nat) : Run α :=" % (f, params, FUEL)] + lines + [""]
@@ -887,6 +916,10 @@ EDITS = [
     ("TableLookup.__call__: cycle length without the cycles", "cycle_length = total_len_float / (self.cycles * 2 * pi)",
      "cycle_length = total_len_float / (2 * pi)"),
     ("TableLookup.__len__ counts something else", "    return len(self._table)", "    return len(self._table) - 1"),
+    ("TableLookup.__getitem__: D15 back (int(idx) instead of int(floor(idx)))", "left = int(floor(idx))", "left = int(idx)"),
+    ("TableLookup.__getitem__: left neighbour without the wrap", "return tbl[left % total_length] *", "return tbl[left] *"),
+    ("TableLookup.__getitem__: weights swapped", "tbl[int(ceil(idx)) % total_length] * (idx - left)",
+     "tbl[int(ceil(idx)) % total_length] * (left - idx)"),
     ("impulse: the one is yielded after the zeros (reorder)", "    yield one\n    for x in xrange(num_samples):\n      yield zero",
      "    for x in xrange(num_samples):\n      yield zero\n    yield one"),
 ]
